@@ -14,3 +14,12 @@ for id in "$@"; do
   echo "$out" | grep -E "^violation:" | head -n 2 | cut -c1-300
 done
 git -C /repo checkout -- . 
+# leave /verif/build in the state of the restored tree (manual use of build/bin/* afterwards must not see the seeded change)
+python3 - <<'PY' >/dev/null 2>&1
+import sys, os
+sys.path.insert(0, "/verif/lib")
+import vdriver
+vs = [v for v in ("base", "exc", "opt", "asanexc") if os.path.isdir(os.path.join(vdriver.BUILD, "lib", v))]
+bins = [b for b in os.listdir(os.path.join(vdriver.BUILD, "bin"))] if os.path.isdir(os.path.join(vdriver.BUILD, "bin")) else []
+vdriver.build(vs, bins)
+PY
